@@ -393,6 +393,56 @@ pub fn do_op<K: KeyT, V: ValT>(m: &mut Map<K, V>, w: &[&str], chk: &mut Vec<Stri
                 }
             }
         }
+        // raw_entry_mut().from_hash(hash of ANOTHER key, matcher on the id).insert(key, value): the entry is
+        // searched under the caller's hash, but a Vacant entry must file the pair under the KEY's own hash
+        "raw_hash_insert" => {
+            let hk = K::mk(n(1), 0);
+            let hb = m.hasher().clone();
+            let h = std::hash::BuildHasher::hash_one(&hb, &hk);
+            drop(hk);
+            let id = n(2);
+            match m.raw_entry_mut().from_hash(h, |q| q.id() == id) {
+                hashbrown::hash_map::RawEntryMut::Occupied(mut e) => {
+                    let old = e.insert(V::mk(n(4)));
+                    let o = Out::Val(old.val());
+                    held.push(Box::new(old));
+                    o
+                }
+                hashbrown::hash_map::RawEntryMut::Vacant(e) => {
+                    match n(3) % 3 {
+                        0 => { e.insert(K::mk(n(2), n(3)), V::mk(n(4))); }
+                        1 => { let k = K::mk(n(2), n(3)); let h2 = std::hash::BuildHasher::hash_one(&hb, &k); e.insert_hashed_nocheck(h2, k, V::mk(n(4))); }
+                        _ => { let k = K::mk(n(2), n(3)); let h2 = std::hash::BuildHasher::hash_one(&hb, &k);
+                               let hb2 = hb.clone();
+                               e.insert_with_hasher(h2, k, V::mk(n(4)), move |q: &K| std::hash::BuildHasher::hash_one(&hb2, q)); }
+                    }
+                    Out::None
+                }
+            }
+        }
+        // from_key(k) -> Occupied -> replace_entry_with(|_, _| None) -> the returned VACANT entry -> insert(k2, v2):
+        // the new pair must be filed under k2's hash, not under the hash the builder searched with
+        "raw_rename" => {
+            let k = K::mk(n(1), n(2));
+            let e = m.raw_entry_mut().from_key(&k);
+            let mut old: Option<u64> = None;
+            let after = match e {
+                hashbrown::hash_map::RawEntryMut::Occupied(o) => o.replace_entry_with(|_k: &K, val: V| {
+                    old = Some(val.val());
+                    held.push(Box::new(val));
+                    None
+                }),
+                v => v,
+            };
+            match after {
+                hashbrown::hash_map::RawEntryMut::Vacant(v) => { v.insert(K::mk(n(3), n(4)), V::mk(n(5))); }
+                hashbrown::hash_map::RawEntryMut::Occupied(_) => chk.push("raw replace_entry_with returned Occupied although the closure returned None".into()),
+            }
+            match old {
+                Some(v) => Out::Val(v),
+                None => Out::None,
+            }
+        }
         "raw_remove" => {
             let k = K::mk(n(1), n(2));
             match m.raw_entry_mut().from_key(&k) {
